@@ -5,7 +5,7 @@ from . import base
 from .C04 import set_plain, del_plain, wrap_at
 
 THEOREMS = ['C16_append', 'C16_append_missing', 'C16_append_nonlist', 'C16_extend_fallback', 'C16_prev', 'C16_detach_frame', 'C16_append_end_to_end',
-            'C16_append_result_at_path', 'C16_append_every_other_path_kept', 'C16_prev_end_to_end', 'C16_prev_every_other_path_kept']
+            'C16_append_result_at_path', 'C16_append_every_other_path_kept', 'C16_prev_end_to_end', 'C16_prev_every_other_path_kept', 'C16_extend_end_to_end', 'C16_extend_fallback_end_to_end']
 PLAIN = gen.PROFILES['plain']
 
 
